@@ -104,7 +104,8 @@ def raise_site(exc, repo=REPO):
 class Ctx:
     """What a worker records. Everything here is merged by the parent."""
 
-    MAX_VIOL = 200  # per worker; further ones are only counted
+    MAX_PER_GROUP = 12  # witnesses kept per worker and attribution group; further ones of the same group are only counted
+    MAX_GROUPS = 400
     MAX_SAMPLES = 12
 
     def __init__(self, prop, tier, seed, k=0, n=1):
@@ -117,6 +118,7 @@ class Ctx:
         self.distinct = set()
         self.violations = []
         self.viol_overflow = 0
+        self.viol_groups = {}
         self.samples = []
         self.notes = []
         self.extra = {}
@@ -147,8 +149,16 @@ class Ctx:
 
     def violation(self, oracle, case, detail, features=(), site=None):
         self.counters['violations.' + oracle] += 1
-        if len(self.violations) >= self.MAX_VIOL:
+        # keep a bounded number of witnesses per attribution group (oracle, features, site, sig): a flood of one (possibly
+        # known) mechanism must never push a different mechanism out of the record
+        sig = detail.get('sig') if isinstance(detail, dict) else None
+        gk = (oracle, tuple(sorted(set(features))), json.dumps(site, sort_keys=True, default=str), repr(sig))
+        n = self.viol_groups.get(gk, 0)
+        self.viol_groups[gk] = n + 1
+        if n >= self.MAX_PER_GROUP or len(self.viol_groups) > self.MAX_GROUPS:
             self.viol_overflow += 1
+            if len(self.viol_groups) > self.MAX_GROUPS:
+                self.counters['violations.dropped-group-limit'] += 1
             return
         self.violations.append(
             {
